@@ -1,6 +1,8 @@
 import ChythonModel.Proofs.C06PidBfs
 import ChythonModel.Proofs.C06PidCset
+import ChythonModel.Proofs.C06PidLong
 import ChythonModel.Proofs.C06SkinCycles
+import ChythonModel.Proofs.C06Count
 /-!
 # C06 — what `_sssr` (the model `sssrPid`) returns: simple cycles of the input graph, no repetition, as many as asked for
 -/
@@ -81,5 +83,50 @@ theorem sssrPid_spec_of {g : Adj} (hwf : wfAdj g = true) (hsym : symAdj g = true
         simp only at h hc
         exact ⟨fun r hr => hc _ rfl r (ringsFilter_subset h r hr), ringsFilter_nodup h,
           fun hn => ringsFilter_length hn h⟩
+
+theorem sssrPid_length {g : Adj} {n : Nat} {out : List Ring} (h : sssrPid g n = .ok out) : out.length = n := by
+  unfold sssrPid sssrTrace at h
+  split at h
+  · cases h
+  · split at h
+    · cases h
+    · split at h
+      · cases h
+      · exact ringsFilter_length_any h
+
+theorem sssrModel_spec_of (m : ChythonModel.Model.Mol) (hwf : m.WF = true) (hL : P2LongFor (notSpecial m))
+    {out : List Ring} (h : sssrModel m = .ok out) :
+    (∀ r ∈ out, IsSimpleCycle (notSpecial m) r) ∧ out.Nodup ∧
+      ∃ rc, ringsCount m = some rc ∧ out.length = rc.toNat := by
+  unfold sssrModel sssrModelTrace at h
+  cases hrc : ringsCount m with
+  | none => rw [hrc] at h; cases h
+  | some rc =>
+    rw [hrc] at h
+    simp only at h
+    split at h
+    · next h0 =>
+      simp only [SssrRes.ok.injEq] at h
+      subst h
+      have : rc = 0 := by simpa using h0
+      subst this
+      exact ⟨fun _ hr => by simp at hr, List.nodup_nil, 0, rfl, rfl⟩
+    · have hp : sssrPid (notSpecial m) rc.toNat = .ok out := h
+      obtain ⟨hw, hs⟩ := notSpecial_wf m hwf
+      obtain ⟨h1, h2, _⟩ := sssrPid_spec_of hw hs hL hp
+      exact ⟨h1, h2, rc, rfl, sssrPid_length hp⟩
+
+theorem p2LongFor_of_wf {g : Adj} (hwf : wfAdj g = true) (hsym : symAdj g = true) : P2LongFor g :=
+  fun paths _ _ _ hp h => makePid_p2_long g (sym_of_symAdj hsym) (no_loop_of_wfAdj hwf) paths hp h
+
+theorem sssrPid_spec {g : Adj} (hwf : wfAdj g = true) (hsym : symAdj g = true) {n : Nat} {out : List Ring}
+    (h : sssrPid g n = .ok out) : (∀ r ∈ out, IsSimpleCycle g r) ∧ out.Nodup ∧ out.length = n :=
+  ⟨(sssrPid_spec_of hwf hsym (p2LongFor_of_wf hwf hsym) h).1, (sssrPid_spec_of hwf hsym (p2LongFor_of_wf hwf hsym) h).2.1,
+    sssrPid_length h⟩
+
+theorem sssrModel_spec (m : ChythonModel.Model.Mol) (hwf : m.WF = true) {out : List Ring} (h : sssrModel m = .ok out) :
+    (∀ r ∈ out, IsSimpleCycle (notSpecial m) r) ∧ out.Nodup ∧
+      ∃ rc, ringsCount m = some rc ∧ out.length = rc.toNat :=
+  sssrModel_spec_of m hwf (p2LongFor_of_wf (notSpecial_wf m hwf).1 (notSpecial_wf m hwf).2) h
 
 end ChythonModel.Proofs.C06
